@@ -1024,3 +1024,33 @@ Proof.
   - apply N.ltb_lt in A. apply N.leb_gt in B. lia.
   - apply N.ltb_ge in A. apply N.leb_le in B. lia.
 Qed.
+
+(* ====================================================================================== *)
+(* 14. Ready.appliedCursor / Advance: with committed entries in the Ready the cursor is the LAST of them, also when
+       the Ready carries a snapshot before them — the maximum of the snapshot index and everything handed out *)
+Theorem applied_cursor_nil : forall snap, applied_cursor [] snap = snap.
+Proof. reflexivity. Qed.
+
+Theorem applied_cursor_max : forall cents snap lo, contig lo cents -> cents <> [] -> snap < lo ->
+  applied_cursor cents snap = lo + nlen cents - 1 /\
+  applied_cursor cents snap = N.max snap (lo + nlen cents - 1) /\
+  snap < applied_cursor cents snap /\
+  forall x, In x cents -> eindex x <= applied_cursor cents snap.
+Proof.
+  intros cents snap lo Hc Hne Hlt. destruct (contig_last_index _ _ Hc Hne) as (e & He & Hi).
+  assert (Hn : 1 <= nlen cents). { destruct cents; [congruence|]. unfold nlen. simpl. lia. }
+  unfold applied_cursor. rewrite He. split; [exact Hi|]. split; [lia|]. split; [lia|].
+  intros x Hx. pose proof (contig_in_le _ _ _ Hc Hx). lia.
+Qed.
+
+Theorem advance_applied_after_snapshot_and_entries : forall l cents snap lo l',
+  contig lo cents -> cents <> [] -> snap < lo -> advance_applied l cents snap = Ok l' ->
+  l_applied l' = lo + nlen cents - 1 /\ snap < l_applied l' /\ (forall x, In x cents -> eindex x <= l_applied l') /\
+  l_committed l' = l_committed l /\ l_u l' = l_u l /\ l_st l' = l_st l.
+Proof.
+  intros l cents snap lo l' Hc Hne Hlt H. destruct (applied_cursor_max cents snap lo Hc Hne Hlt) as (A & _ & B & C).
+  unfold advance_applied, l_applied_to in H. rewrite A in *.
+  replace (lo + nlen cents - 1 =? 0) with false in H by (symmetry; apply N.eqb_neq; lia).
+  destruct ((l_committed l <? lo + nlen cents - 1) || (lo + nlen cents - 1 <? l_applied l)); [discriminate|].
+  injection H as <-. cbn. repeat split; auto.
+Qed.
